@@ -17,7 +17,7 @@ class C17(PropBase):
             "interval_ms) from a grid incl. zero, non-dividing and non-tiling values, offered by entity "
             "(check + reset_global_config, what init_with_config does) and by YAML file "
             "(init_config_with_yaml); observed: acceptance, the four values read on the initialising thread and "
-            "on a spawned thread, an entry built and exited on each thread (no panic) and the geometry of the "
+            "on a thread spawned afterwards and on a worker thread that had read the configuration before it was installed, an entry built and exited on each thread (no panic) and the geometry of the "
             "node created there; non-trivial = accepted and different from the default configuration; distinct "
             "= distinct case text")
     assumptions = ["background collectors / time ticker of init_core_components are not started (the harness "
@@ -37,6 +37,11 @@ class C17(PropBase):
                 k = rng.pick(ks)
                 iv = k * bl
                 sc = rng.pick([d for d in range(1, k + 1) if k % d == 0])
+            elif r < 0.7:
+                # metric window given the same (possibly unservable) geometry as the ring
+                sct = rng.pick([0, 1, 3, 7, 6, 20])
+                ivt = rng.pick([0, 1000, 1000, 700, 10000, 9999])
+                sc, iv = sct, ivt
             else:
                 sct = rng.pick([0, 1, 3, 7, 20, 20, 16])
                 ivt = rng.pick([0, 1000, 10000, 10000, 9999, 700])
